@@ -33,6 +33,9 @@ def gen(rng, strategy, signal_case=False):
     horizon_steps = int(rng.choice([10, 14, 20]) * 60 / interval)
     n = horizon_steps
     nveh = rng.choice([1, 1, 2, 3, 4]) if not signal_case else rng.choice([1, 1, 2, 3])
+    tight = (not signal_case) and rng.random() < 0.35       # single vehicle, connector head room binding at times
+    if tight:
+        nveh = 1
     P = rng.choice([11, 22, 50])
     taper = rng.random() < 0.4
     vt = {"name": "vt", "capacity": rng.choice([30, 50, 76]), "mileage": 20,
@@ -45,6 +48,8 @@ def gen(rng, strategy, signal_case=False):
         k = rng.randrange(1, n)
         fl_vals = [5.0] * k + [round(rng.uniform(20, 40), 2)] * (n + 2 - k)       # load rising later
     gc_max = nveh * cs_p + (max(fl_vals) if fixed else 0) + rng.choice([1, 10, 100])
+    if tight and rng.random() < 0.5:
+        gc_max = (max(fl_vals) if fixed else 0) + rng.choice([2, 5, cs_p / 2])
     comp = {"vehicle_types": {"vt": vt}, "vehicles": {}, "charging_stations": {}, "batteries": {}, "photovoltaics": {},
             "grid_connectors": {"GC1": {"max_power": gc_max, "voltage_level": "MV", "grid_operator": "op",
                                         "cost": {"type": "fixed", "value": 0.3}}}}
@@ -110,11 +115,16 @@ def gen(rng, strategy, signal_case=False):
         extra["time_windows"] = {"op": {"all": {"start": "2021-01-01", "end": "2021-12-31", "windows": {"MV": wins}}}}
     else:
         pat = [True] * n
-    if strategy == "greedy" and rng.random() < 0.3:
+    if tight and rng.random() < 0.7 and strategy != "flex_window":
         # a reduced connector limit for part of the time
         a = rng.randrange(0, n)
+        b_ = rng.randrange(a, n + 1)
+        low = round(max(gc_max * rng.choice([0.1, 0.5, 0.8]), (max(fl_vals) if fixed else 0) + rng.choice([2, 4])), 2)
         ev["grid_operator_signals"].append({"signal_time": iso(start), "start_time": iso(start + dt * a), "grid_connector_id": "GC1",
-                                            "max_power": round(max(gc_max * rng.choice([0.5, 0.8]), (max(fl_vals) if fixed else 0) + 2), 2)})
+                                            "max_power": low})
+        if b_ < n and rng.random() < 0.6:
+            ev["grid_operator_signals"].append({"signal_time": iso(start), "start_time": iso(start + dt * b_), "grid_connector_id": "GC1",
+                                                "max_power": gc_max})
     # vehicles: standing periods with a margin over the steps needed at full power
     suffix = rng.choice(["_deps", "_deps", "_opps"])
     for k in range(nveh):
@@ -132,7 +142,27 @@ def gen(rng, strategy, signal_case=False):
             "dep_offset": rng.choice([0, 0, 0, -3, 4]), "seed": rng.randrange(10**6)}
 
 
-def steps_needed(vt, cs, soc0, desired, interval, allowed):
+def limit_series(js, n, with_fixed=True):
+    """connector limit per step (rating and max_power signals), minus the fixed load of that step"""
+    gc = js["components"]["grid_connectors"]["GC1"]
+    start = datetime.datetime.fromisoformat(js["scenario"]["start_time"])
+    dt = datetime.timedelta(minutes=js["scenario"]["interval"])
+    evs = sorted((datetime.datetime.fromisoformat(e["start_time"]), e["max_power"]) for e in js["events"]["grid_operator_signals"]
+                 if "max_power" in e)
+    fl = list(js["events"]["fixed_load"].values())
+    out = []
+    for i in range(n):
+        t = start + dt * i
+        cur = gc["max_power"]
+        for st, mp in evs:
+            if st <= t:
+                cur = min(gc["max_power"], mp)
+        f = sum(x["values"][i] if i < len(x["values"]) else x["values"][-1] for x in fl)
+        out.append(cur - (f if with_fixed else 0))
+    return out
+
+
+def steps_needed(vt, cs, soc0, desired, interval, allowed, head=None):
     """number of allowed steps (list of bool from the arrival step) the vehicle alone needs at full station power;
     returns (index after the last needed step, reached soc) using the implementation's battery model"""
     from spice_ev.battery import Battery
@@ -143,7 +173,9 @@ def steps_needed(vt, cs, soc0, desired, interval, allowed):
         if b.soc >= desired - 1e-9:
             return i, b.soc
         if ok:
-            b.load(dt, max_power=cs["max_power"], target_soc=desired)
+            p = cs["max_power"] if head is None else min(cs["max_power"], head[i])
+            if p > 0:
+                b.load(dt, max_power=p, target_soc=desired)
     return (len(allowed) if b.soc >= desired - 1e-9 else None), b.soc
 
 
@@ -161,7 +193,8 @@ def finish(case, rng_seed=None):
         a, margin, csid = v.pop("_arr"), v.pop("_margin"), v.pop("_cs")
         cs = comp["charging_stations"][csid]
         allowed = case["pattern"][a:] if case["signal_case"] else [True] * (n - a)
-        need, _ = steps_needed(comp["vehicle_types"]["vt"], cs, v["soc"], v["desired_soc"], interval, allowed)
+        head = limit_series(js, n + 2)[a:] if len(comp["vehicles"]) == 1 else None
+        need, _ = steps_needed(comp["vehicle_types"]["vt"], cs, v["soc"], v["desired_soc"], interval, allowed, head)
         if need is None:
             return None
         need = max(need, 1)
